@@ -97,7 +97,10 @@ Record input := mkInput {
   dev_index_same_len : bool;    (* len(y_dev) == len(X_dev) *)
   ydev_classes_ok : bool;       (* BinaryCarver: y_dev holds exactly 0 and 1; MulticlassCarver: y_dev
                                    holds exactly the classes of y; true for ContinuousCarver *)
-  ydev_has_str : bool           (* some value of y_dev is a str *)
+  ydev_has_str : bool;          (* some value of y_dev is a str *)
+  ordinal_id_like : bool        (* the most frequent level of the ordinal feature is rarer than min_freq:
+                                   QualitativeDiscretizer._prepare_data drops the feature ("checking for
+                                   ids") BEFORE its values are checked against the ranking *)
 }.
 
 (* ---- objects, steps, runs --------------------------------------------------------------- *)
@@ -199,6 +202,9 @@ Definition k_x_frame (_ : bool) (i : input) := x_is_frame i.
 Definition k_cols (_ : bool) (i : input) := columns_present i.
 Definition c_quant_numeric (_ : bool) (i : input) := negb (quant_has_str i).
 Definition c_ordinal_known (_ : bool) (i : input) := negb (ordinal_unknown_value i).
+(* at fit, through QualitativeDiscretizer._prepare_data: an id-like ordinal feature is removed first,
+   its values are then checked by nobody (known finding O48) *)
+Definition c_ordinal_known_fit (_ : bool) (i : input) := negb (ordinal_unknown_value i) || ordinal_id_like i.
 (* MulticlassCarver.fit on a fitted object: the per-class BinaryCarver is built with the raw
    ordinal features but the casted values_orders, its Discretizer refuses ("No ordering was
    provided") — an assertion reached only when an ordinal feature was given *)
@@ -272,12 +278,12 @@ Definition fit_current {S : Type} (w : S -> input -> S) (c : cls) : list (step S
   Guard ::
   match c with
   | KDiscretizer =>
-      pd ++ [Crash k_x_usable; Check c_ordinal_known; Write w; Check c_quant_numeric; Write w]
+      pd ++ [Crash k_x_usable; Check c_ordinal_known_fit; Write w; Check c_quant_numeric; Write w]
       ++ base_fit w
   | KQuantitative =>
       pd ++ [Crash k_x_usable; Check c_quant_numeric; Write w; Write w] ++ base_fit w
   | KQualitative =>
-      pd ++ [Crash k_x_usable; Write w; Check c_ordinal_known; Write w] ++ base_fit w
+      pd ++ [Crash k_x_usable; Write w; Check c_ordinal_known_fit; Write w] ++ base_fit w
   | KOrdinal =>
       pd ++ [Crash k_x_usable; Write w; Write w] ++ base_fit w
   | KCategorical =>
@@ -288,15 +294,15 @@ Definition fit_current {S : Type} (w : S -> input -> S) (c : cls) : list (step S
   | KBinary =>
       pd ++ pd_dev ++
       [Check c_y_given; Check k_ydev_given; Check c_y_01; Check c_two_classes; Check c_ydev_classes;
-       Crash k_x_usable; Check c_ordinal_known; Check c_quant_numeric; Write w; Write w] ++ base_fit w
+       Crash k_x_usable; Check c_ordinal_known_fit; Check c_quant_numeric; Write w; Write w] ++ base_fit w
   | KContinuousCarver =>
       pd ++ pd_dev ++
       [Check c_y_given; Check k_ydev_given; Check c_y_no_str; Check c_many_classes; Check k_ydev_no_str;
-       Crash k_x_usable; Check c_ordinal_known; Check c_quant_numeric; Write w; Write w] ++ base_fit w
+       Crash k_x_usable; Check c_ordinal_known_fit; Check c_quant_numeric; Write w; Write w] ++ base_fit w
   | KMulticlass =>
       pd ++ pd_dev ++
       [Check c_y_given; Check k_ydev_given; Check c_many_classes; Check c_ydev_classes; Crash k_x_usable;
-       Check c_multiclass_inner_orders; Check c_ordinal_known; Check c_quant_numeric;
+       Check c_multiclass_inner_orders; Check c_ordinal_known_fit; Check c_quant_numeric;
        Write w; SetFitted false; Write w] ++ base_fit w
   end.
 
@@ -387,6 +393,11 @@ Definition guarded (c : cls) (e : entry) (m : mal) : bool :=
   | _, _, _ => true
   end.
 
+(* the known gap inside a guarded triple that is not a crash: the unknown ordinal value of an
+   id-like ordinal feature at a first fit *)
+Definition gap_free (e : entry) (m : mal) (i : input) : bool :=
+  negb (mal_eqb m MOrdinalUnknown && entry_eqb e EFit && ordinal_id_like i).
+
 Definition fitted_at (e : entry) : bool :=
   match e with ERefit | ETransform => true | _ => false end.
 
@@ -401,7 +412,7 @@ Definition valid_input (c : cls) (with_dev : bool) (ordinal : bool) : input :=
           (match c with KContinuousCarver => 9 | KMulticlass => 3 | _ => 2 end)
           (match c with KContinuousCarver | KMulticlass => false | _ => true end)
           false false false false false true (has_ordinal_features c && ordinal)
-          true true true false.
+          true true true false false.
 
 (* single-fault inputs used as witnesses *)
 Definition set_x_not_frame (i : input) :=
@@ -409,71 +420,71 @@ Definition set_x_not_frame (i : input) :=
           (columns_present i) (dev_given i) (xdev_is_frame i) (ydev_is_series i) (ydev_has_nan i)
           (dev_index_matches i) (dev_columns_present i) (n_classes i) (y_is_01 i) (y_has_str i) (y_all_str i)
           (feature_overlap i) (quant_has_str i) (ordinal_unknown_value i) (sort_by_ok i) (has_ordinal i)
-          (ydev_given i) (dev_index_same_len i) (ydev_classes_ok i) (ydev_has_str i).
+          (ydev_given i) (dev_index_same_len i) (ydev_classes_ok i) (ydev_has_str i) (ordinal_id_like i).
 Definition set_x_none (i : input) :=
   mkInput false true (y_given i) (y_is_series i) (y_has_nan i) (index_matches i) (index_same_len i)
           (columns_present i) (dev_given i) (xdev_is_frame i) (ydev_is_series i) (ydev_has_nan i)
           (dev_index_matches i) (dev_columns_present i) (n_classes i) (y_is_01 i) (y_has_str i) (y_all_str i)
           (feature_overlap i) (quant_has_str i) (ordinal_unknown_value i) (sort_by_ok i) (has_ordinal i)
-          (ydev_given i) (dev_index_same_len i) (ydev_classes_ok i) (ydev_has_str i).
+          (ydev_given i) (dev_index_same_len i) (ydev_classes_ok i) (ydev_has_str i) (ordinal_id_like i).
 Definition set_y_not_series (i : input) :=
   mkInput (x_is_frame i) (x_is_none i) (y_given i) false (y_has_nan i) (index_matches i) (index_same_len i)
           (columns_present i) (dev_given i) (xdev_is_frame i) (ydev_is_series i) (ydev_has_nan i)
           (dev_index_matches i) (dev_columns_present i) (n_classes i) (y_is_01 i) (y_has_str i) (y_all_str i)
           (feature_overlap i) (quant_has_str i) (ordinal_unknown_value i) (sort_by_ok i) (has_ordinal i)
-          (ydev_given i) (dev_index_same_len i) (ydev_classes_ok i) (ydev_has_str i).
+          (ydev_given i) (dev_index_same_len i) (ydev_classes_ok i) (ydev_has_str i) (ordinal_id_like i).
 Definition set_y_nan (i : input) :=
   mkInput (x_is_frame i) (x_is_none i) (y_given i) (y_is_series i) true (index_matches i) (index_same_len i)
           (columns_present i) (dev_given i) (xdev_is_frame i) (ydev_is_series i) (ydev_has_nan i)
           (dev_index_matches i) (dev_columns_present i) (n_classes i) (y_is_01 i) (y_has_str i) (y_all_str i)
           (feature_overlap i) (quant_has_str i) (ordinal_unknown_value i) (sort_by_ok i) (has_ordinal i)
-          (ydev_given i) (dev_index_same_len i) (ydev_classes_ok i) (ydev_has_str i).
+          (ydev_given i) (dev_index_same_len i) (ydev_classes_ok i) (ydev_has_str i) (ordinal_id_like i).
 Definition set_index_mismatch (same_len : bool) (i : input) :=
   mkInput (x_is_frame i) (x_is_none i) (y_given i) (y_is_series i) (y_has_nan i) false same_len
           (columns_present i) (dev_given i) (xdev_is_frame i) (ydev_is_series i) (ydev_has_nan i)
           (dev_index_matches i) (dev_columns_present i) (n_classes i) (y_is_01 i) (y_has_str i) (y_all_str i)
           (feature_overlap i) (quant_has_str i) (ordinal_unknown_value i) (sort_by_ok i) (has_ordinal i)
-          (ydev_given i) (dev_index_same_len i) (ydev_classes_ok i) (ydev_has_str i).
+          (ydev_given i) (dev_index_same_len i) (ydev_classes_ok i) (ydev_has_str i) (ordinal_id_like i).
 Definition set_missing_col (i : input) :=
   mkInput (x_is_frame i) (x_is_none i) (y_given i) (y_is_series i) (y_has_nan i) (index_matches i) (index_same_len i)
           false (dev_given i) (xdev_is_frame i) (ydev_is_series i) (ydev_has_nan i)
           (dev_index_matches i) (dev_columns_present i) (n_classes i) (y_is_01 i) (y_has_str i) (y_all_str i)
           (feature_overlap i) (quant_has_str i) (ordinal_unknown_value i) (sort_by_ok i) (has_ordinal i)
-          (ydev_given i) (dev_index_same_len i) (ydev_classes_ok i) (ydev_has_str i).
+          (ydev_given i) (dev_index_same_len i) (ydev_classes_ok i) (ydev_has_str i) (ordinal_id_like i).
 Definition set_y_mixed_str (i : input) :=
   mkInput (x_is_frame i) (x_is_none i) (y_given i) (y_is_series i) (y_has_nan i) (index_matches i) (index_same_len i)
           (columns_present i) (dev_given i) (xdev_is_frame i) (ydev_is_series i) (ydev_has_nan i)
           (dev_index_matches i) (dev_columns_present i) (n_classes i) (y_is_01 i) true false
           (feature_overlap i) (quant_has_str i) (ordinal_unknown_value i) (sort_by_ok i) (has_ordinal i)
-          (ydev_given i) (dev_index_same_len i) (ydev_classes_ok i) (ydev_has_str i).
+          (ydev_given i) (dev_index_same_len i) (ydev_classes_ok i) (ydev_has_str i) (ordinal_id_like i).
 Definition set_overlap (i : input) :=
   mkInput (x_is_frame i) (x_is_none i) (y_given i) (y_is_series i) (y_has_nan i) (index_matches i) (index_same_len i)
           (columns_present i) (dev_given i) (xdev_is_frame i) (ydev_is_series i) (ydev_has_nan i)
           (dev_index_matches i) (dev_columns_present i) (n_classes i) (y_is_01 i) (y_has_str i) (y_all_str i)
           true (quant_has_str i) (ordinal_unknown_value i) (sort_by_ok i) (has_ordinal i)
-          (ydev_given i) (dev_index_same_len i) (ydev_classes_ok i) (ydev_has_str i).
+          (ydev_given i) (dev_index_same_len i) (ydev_classes_ok i) (ydev_has_str i) (ordinal_id_like i).
 Definition set_quant_str (i : input) :=
   mkInput (x_is_frame i) (x_is_none i) (y_given i) (y_is_series i) (y_has_nan i) (index_matches i) (index_same_len i)
           (columns_present i) (dev_given i) (xdev_is_frame i) (ydev_is_series i) (ydev_has_nan i)
           (dev_index_matches i) (dev_columns_present i) (n_classes i) (y_is_01 i) (y_has_str i) (y_all_str i)
           (feature_overlap i) true (ordinal_unknown_value i) (sort_by_ok i) (has_ordinal i)
-          (ydev_given i) (dev_index_same_len i) (ydev_classes_ok i) (ydev_has_str i).
+          (ydev_given i) (dev_index_same_len i) (ydev_classes_ok i) (ydev_has_str i) (ordinal_id_like i).
 Definition set_ordinal_unknown (i : input) :=
   mkInput (x_is_frame i) (x_is_none i) (y_given i) (y_is_series i) (y_has_nan i) (index_matches i) (index_same_len i)
           (columns_present i) (dev_given i) (xdev_is_frame i) (ydev_is_series i) (ydev_has_nan i)
           (dev_index_matches i) (dev_columns_present i) (n_classes i) (y_is_01 i) (y_has_str i) (y_all_str i)
           (feature_overlap i) (quant_has_str i) true (sort_by_ok i) true
-          (ydev_given i) (dev_index_same_len i) (ydev_classes_ok i) (ydev_has_str i).
+          (ydev_given i) (dev_index_same_len i) (ydev_classes_ok i) (ydev_has_str i) (ordinal_id_like i).
 
 Definition set_one_class (i : input) :=
   mkInput (x_is_frame i) (x_is_none i) (y_given i) (y_is_series i) (y_has_nan i) (index_matches i) (index_same_len i) (columns_present i) (dev_given i) (xdev_is_frame i) (ydev_is_series i) (ydev_has_nan i) (dev_index_matches i) (dev_columns_present i) 1 false (y_has_str i) (y_all_str i) (feature_overlap i) (quant_has_str i) (ordinal_unknown_value i) (sort_by_ok i) (has_ordinal i)
-          (ydev_given i) (dev_index_same_len i) (ydev_classes_ok i) (ydev_has_str i).
+          (ydev_given i) (dev_index_same_len i) (ydev_classes_ok i) (ydev_has_str i) (ordinal_id_like i).
 Definition set_y_all_str (i : input) :=
   mkInput (x_is_frame i) (x_is_none i) (y_given i) (y_is_series i) (y_has_nan i) (index_matches i) (index_same_len i) (columns_present i) (dev_given i) (xdev_is_frame i) (ydev_is_series i) (ydev_has_nan i) (dev_index_matches i) (dev_columns_present i) (n_classes i) false true true (feature_overlap i) (quant_has_str i) (ordinal_unknown_value i) (sort_by_ok i) (has_ordinal i)
-          (ydev_given i) (dev_index_same_len i) (ydev_classes_ok i) (ydev_has_str i).
+          (ydev_given i) (dev_index_same_len i) (ydev_classes_ok i) (ydev_has_str i) (ordinal_id_like i).
 Definition set_bad_sort_by (i : input) :=
   mkInput (x_is_frame i) (x_is_none i) (y_given i) (y_is_series i) (y_has_nan i) (index_matches i) (index_same_len i) (columns_present i) (dev_given i) (xdev_is_frame i) (ydev_is_series i) (ydev_has_nan i) (dev_index_matches i) (dev_columns_present i) (n_classes i) (y_is_01 i) (y_has_str i) (y_all_str i) (feature_overlap i) (quant_has_str i) (ordinal_unknown_value i) false (has_ordinal i)
-          (ydev_given i) (dev_index_same_len i) (ydev_classes_ok i) (ydev_has_str i).
+          (ydev_given i) (dev_index_same_len i) (ydev_classes_ok i) (ydev_has_str i) (ordinal_id_like i).
 
 Definition inject (m : mal) (i : input) : input :=
   match m with
@@ -501,12 +512,17 @@ Definition gap_result_before (c : cls) (e : entry) (m : mal) : result * obj nat 
 
 (* crash points inside guarded triples (a variant of the malformation escapes the assertion):
    X is None — _prepare_data skips everything `if X is not None`, the first use of X raises *)
+Definition set_ordinal_unknown_id_like (i : input) :=
+  mkInput (x_is_frame i) (x_is_none i) (y_given i) (y_is_series i) (y_has_nan i) (index_matches i) (index_same_len i) (columns_present i) (dev_given i) (xdev_is_frame i) (ydev_is_series i) (ydev_has_nan i) (dev_index_matches i) (dev_columns_present i) (n_classes i) (y_is_01 i) (y_has_str i) (y_all_str i) (feature_overlap i) (quant_has_str i) true (sort_by_ok i) true
+          (ydev_given i) (dev_index_same_len i) (ydev_classes_ok i) (ydev_has_str i) true.
+Definition id_like_classes := [KDiscretizer; KQualitative; KBinary; KContinuousCarver; KMulticlass].
+
 Definition set_ydev_missing (i : input) :=
   mkInput (x_is_frame i) (x_is_none i) (y_given i) (y_is_series i) (y_has_nan i) (index_matches i) (index_same_len i) (columns_present i) (dev_given i) (xdev_is_frame i) (ydev_is_series i) (ydev_has_nan i) (dev_index_matches i) (dev_columns_present i) (n_classes i) (y_is_01 i) (y_has_str i) (y_all_str i) (feature_overlap i) (quant_has_str i) (ordinal_unknown_value i) (sort_by_ok i) (has_ordinal i)
-          false (dev_index_same_len i) (ydev_classes_ok i) (ydev_has_str i).
+          false (dev_index_same_len i) (ydev_classes_ok i) (ydev_has_str i) (ordinal_id_like i).
 Definition set_ydev_str (i : input) :=
   mkInput (x_is_frame i) (x_is_none i) (y_given i) (y_is_series i) (y_has_nan i) (index_matches i) (index_same_len i) (columns_present i) (dev_given i) (xdev_is_frame i) (ydev_is_series i) (ydev_has_nan i) (dev_index_matches i) (dev_columns_present i) (n_classes i) (y_is_01 i) (y_has_str i) (y_all_str i) (feature_overlap i) (quant_has_str i) (ordinal_unknown_value i) (sort_by_ok i) (has_ordinal i)
-          (ydev_given i) (dev_index_same_len i) (ydev_classes_ok i) true.
+          (ydev_given i) (dev_index_same_len i) (ydev_classes_ok i) true (ordinal_id_like i).
 
 (* X is None (every class) *)
 Definition crash_gap_witnesses : list (cls * entry * mal * input) :=
